@@ -1,53 +1,9 @@
 (* C12: final forms (explicit action lists), checker correctness, historical refutation, examples. *)
-From Gv Require Import C12.Model C12.Spec C12.ProofsBase C12.ProofsReg C12.ProofsC12 C12.ProofsDeliv C12.Witness.
+From Gv Require Import C12.Model C12.Spec C12.ProofsBase C12.ProofsReg C12.ProofsC12 C12.ProofsDeliv C12.ProofsOrder C12.Witness.
 From Coq Require Import List Bool Arith PeanoNat Lia.
 Import ListNotations.
 
-(* ---- the boolean checker is exact ---- *)
-Lemma NW_cons_closed : forall s r,
-  no_write_after_completed (OClosed s :: r) <-> ((forall c, ~ In (OW s c) r) /\ no_write_after_completed r).
-Proof.
-  unfold no_write_after_completed. intros s r. split.
-  - intros H. split.
-    + intros c. apply (H [] r s c eq_refl).
-    + intros l1 l2 s' c Heq. apply (H (OClosed s :: l1) l2 s' c). rewrite Heq. reflexivity.
-  - intros [H1 H2] l1 l2 s' c Heq. destruct l1 as [|o l1]; simpl in Heq; inversion Heq; subst.
-    + apply H1.
-    + eapply H2; eauto.
-Qed.
-Lemma NW_cons_other : forall o r, (forall s, o <> OClosed s) ->
-  (no_write_after_completed (o :: r) <-> no_write_after_completed r).
-Proof.
-  unfold no_write_after_completed. intros o r Ho. split.
-  - intros H l1 l2 s c Heq. apply (H (o :: l1) l2 s c). rewrite Heq. reflexivity.
-  - intros H l1 l2 s c Heq. destruct l1 as [|o' l1]; simpl in Heq; inversion Heq; subst.
-    + exfalso. eapply Ho; eauto.
-    + eapply H; eauto.
-Qed.
-
-Lemma nwac_b_spec : forall l closed,
-  nwac_b closed l = true <-> ((forall s c, In s closed -> ~ In (OW s c) l) /\ no_write_after_completed l).
-Proof.
-  induction l as [|o l]; intros closed.
-  - simpl. split; auto. intros _. split; auto. intros l1 l2 s c H. destruct l1; discriminate.
-  - destruct o; simpl;
-      try (rewrite IHl, NW_cons_other by (intros; discriminate); split; intros [A C]; split; auto;
-           [intros s0 c0 Hs [Hx|Hi]; [discriminate|eapply A; eauto]|intros s0 c0 Hs Hi; eapply A; eauto]; fail).
-    + (* OW *) rewrite andb_true_iff, IHl, NW_cons_other by (intros; discriminate). rewrite negb_true_iff. split.
-      * intros [Hm [A C]]. split; [|exact C]. intros s0 c0 Hs Hin. simpl in Hin. destruct Hin as [Hx|Hi].
-        -- inversion Hx; subst. apply mem_nIn in Hm. auto.
-        -- eapply A; eauto.
-      * intros [A C]. split; [apply mem_nIn; intro Hs; apply (A s c Hs); left; reflexivity|].
-        split; auto. intros s0 c0 Hs Hi. eapply A; eauto.
-    + (* OClosed *) rewrite IHl, NW_cons_closed. split.
-      * intros [A C]. split; [intros s0 c0 Hs [Hx|Hi]; [discriminate|eapply A; eauto; right; auto]|].
-        split; auto. intros c0. apply A. left; auto.
-      * intros [A [C D]]. split; auto. intros s0 c0 [<-|Hs] Hi; [eapply C; eauto|eapply A; eauto].
-Qed.
-
-Lemma no_write_after_completed_b_ok : forall l, no_write_after_completed_b l = true <-> no_write_after_completed l.
-Proof. intros. unfold no_write_after_completed_b. rewrite nwac_b_spec. split; [tauto|]. intros H. split; [intros s c []|exact H]. Qed.
-
+(* ---- the boolean checkers are exact (no_write_after_completed_b_ok, writes_exclusive_b_ok: ProofsC12) ---- *)
 Lemma completed_once_b_ok : forall l, completed_once_b l = true <-> completed_once l.
 Proof. intros. unfold completed_once_b, completed_once. apply nodup_b_true. Qed.
 
@@ -69,12 +25,16 @@ Section Final.
   Lemma final_completed_once : forall acts st, runf acts = Some st -> completed_once (chron st).
   Proof. intros. eapply completed_once_holds, reach_of_run; eauto. Qed.
 
-  Lemma final_writes_exclusive : forall acts st th x st' s,
-    runf acts = Some st -> stepf st (AStep th x) = Some st' ->
-    nw s (log st') <> nw s (log st) ->
-    exists i rest, lookup_thr th (threads st) = Some (i :: rest) /\ w_region i = Some s.
+  Lemma final_writes_exclusive : forall acts st, runf acts = Some st ->
+    writes_exclusive (chron st) /\
+    (forall s, nw s (chron st) = nwe s (chron st) + (if mem s (wlk st) then 1 else 0)) /\
+    (forall th x st' s, stepf st (AStep th x) = Some st' ->
+       nwc s (log st') <> nwc s (log st) ->
+       exists i rest, lookup_thr th (threads st) = Some (i :: rest) /\ w_region i = Some s).
   Proof.
-    intros acts st th x st' s Hr Hs Hn.
+    intros acts st Hr. split; [eapply writes_exclusive_log_holds, reach_of_run; eauto|].
+    split; [intros s; eapply wlock_holds, reach_of_run; eauto|].
+    intros th x st' s Hs Hn.
     assert (HR : RG st) by (eapply RG_reachable, reach_of_run; eauto).
     apply step_AStep in Hs. destruct Hs as (i & rest & st1 & push & sp & Hl & He & ->). simpl in Hn.
     exists i, rest. split; auto. eapply writes_exclusive_holds; eauto.
@@ -88,6 +48,17 @@ Section Final.
       (cnt (nfa ev_bad s) (threads st) = 0 -> inflight = []) /\
       Forall (fun e => flt s e = FPass /\ ev_bad e = false) (acc ev_bad s (chron st)).
   Proof. intros. eapply delivery_order_holds, reach_of_run; eauto. Qed.
+
+  Lemma final_fanout_serial : forall acts st, runf acts = Some st ->
+    fanout_serial (fun s => s_tid (subs st s)) (chron st) /\
+    (forall s, subseq (writes_of s (chron st)) (emitted (s_tid (subs st s)) (chron st))) /\
+    (forall t, NoDup (emitted t (chron st)) -> serial (gwrites (fun s => s_tid (subs st s)) t (chron st))).
+  Proof.
+    intros acts st Hr. pose proof (reach_of_run _ _ Hr) as H.
+    split; [apply (fanout_serial_holds flt wresf ev_bad hbfail); exact H|].
+    split; [intros s; apply (same_order_holds flt wresf ev_bad hbfail); exact H|].
+    intros t Hnd. apply serial_of_fanout; auto. apply (fanout_serial_holds flt wresf ev_bad hbfail); exact H.
+  Qed.
 End Final.
 
 (* ---- historical (pre-repair) transitions: the property fails ---- *)
@@ -101,6 +72,22 @@ Proof.
 Qed.
 
 (* ---- examples: the hypotheses of the theorems are met by non-trivial runs ---- *)
+(* two goroutines of one source: Update(7) is parked inside the Write to subscriber 1 when Update(8) is
+   called; the second call waits for the updater mutex (no step of it is enabled) *)
+Lemma second_update_waits :
+  exists st, run fixed flt0 wres0 bad0 hb0 init ex_two_updates = Some st /\
+    step fixed flt0 wres0 bad0 hb0 st (AStep (TSrc 4) XNone) = None /\
+    mem 1 (wlk st) = true /\ emitted 0 (chron st) = [7] /\ writes_of 1 (chron st) = [7] /\ writes_of 2 (chron st) = [].
+Proof. eexists. split; [vm_compute; reflexivity|]. repeat split; vm_compute; reflexivity. Qed.
+
+(* a writer call in progress keeps close(completed) waiting *)
+Lemma close_waits_for_writer :
+  exists st, run fixed flt0 wres0 bad0 hb0 init ex_close_waits = Some st /\
+    mem 1 (wlk st) = true /\ s_removed (subs st 1) = true /\
+    lookup_thr (TCl 4) (threads st) = Some [ICloseLoop [1]; ICancel 0] /\
+    step fixed flt0 wres0 bad0 hb0 st (AStep (TCl 4) (XPick 1)) = None.
+Proof. eexists. split; [vm_compute; reflexivity|]. repeat split; vm_compute; reflexivity. Qed.
+
 Lemma example_run_proof :
   exists st, run fixed flt0 wres0 bad0 hb0 init ex_run = Some st /\
     threads st = [] /\ writes_of 1 (chron st) = [7] /\ writes_of 2 (chron st) = [7; 8] /\
